@@ -305,6 +305,18 @@ def runner_witness(role):
             src += ".p0_after = p0\n.p1_after = p1\n"
             exp = {"outcome": "ok", "event_has": ["ran_body"], "event_eq": {"p0_after": _tag(o0), "p1_after": _tag(o1)}}
             variants.append(({"source": src, "event": {"zero": 0, "yes": True}}, exp))
+        # parameters whose names start with `_` are ordinary variables: assigned in the body, they must not leak either
+        if shape != "error":
+            for (o0, o1) in (('"outer0"', '"outer1"'),):
+                names = ("_p0", "_p1") if params == "|p0, p1|" else ("_p0",)
+                pf = "|" + ", ".join(names) + "|"
+                assign = "; ".join(f'{nm} = "inside"' for nm in names)
+                body2 = body.replace("{ .ran_body = true;", "{ .ran_body = true; " + assign + ";", 1)
+                src = "".join(f"{nm} = {o}\n" for nm, o in zip(names, (o0, o1)))
+                src += f".r = {call} -> {pf} {body2}\n"
+                src += "".join(f".p{i}_after = {nm}\n" for i, nm in enumerate(names))
+                exp = {"outcome": "ok", "event_has": ["ran_body"], "event_eq": {f"p{i}_after": _tag(o) for i, (nm, o) in enumerate(zip(names, (o0, o1)))}}
+                variants.append(({"source": src, "event": {"zero": 0, "yes": True}}, exp))
         # an outer variable that is unset must stay unset
         src = (f".r, .e = {call} -> {params} {body}\n" if shape == "error" else f".r = {call} -> {params} {body}\n") + ".p0_after = p0\n"
         return variants
